@@ -17,7 +17,7 @@ RULE = ("seeded circuits in which a random subset of edges carries (delay, sprea
         "written augmented ODE (chain of n=round((d/s)^2) stages of rate n/d per edge) integrated by the reference; M-delay "
         "reads the emitted chain orders and rates and asserts mean delay n/rate = d (unit DC gain is structural for the "
         "recorded chain equations); non-trivial = at least one gamma-kernel edge; distinct = distinct spec hash")
-DECIDING = ['rows_compared', 'kernel_edges', 'mdelay_chains', 'vectorized_runs', 'scipy_runs', 'orders_seen_2plus']
+DECIDING = ['matrix_kernel_connections', 'matrix_kernel_order_rounds_up', 'uniform_kernel_models', 'rows_compared', 'kernel_edges', 'mdelay_chains', 'vectorized_runs', 'scipy_runs', 'orders_seen_2plus']
 ASSUMPTIONS = ['(d/s)^2 >= 1 and away from rounding ties', 'chain states start at zero']
 CASE_TIMEOUT = 240
 FOCUS = ['undelayed_shares_source_with_delayed', 'two_delayed_same_pair', 'delayed_source_op_has_intra_consumer',
@@ -37,12 +37,19 @@ def plan(tier, seed):
     cases += [{'family': 'mixed_kinds', 'cseed': rnd.randrange(1 << 30)} for _ in range(40 if tier == 'quick' else 1000)]
     fam = 'probe:bundle_mixes_discrete_and_gamma' if 'bundle_mixes_discrete_and_gamma' in opened else 'mixed_kinds'
     cases += [{'family': fam, 'cseed': rnd.randrange(1 << 30), 'want': 'bundle_mixes_discrete_and_gamma'} for _ in range(k)]
+    # Connectivity (matrix / scalar-weight) connections with delays and spread (machinery shared with C16)
+    cases += [{'family': 'matrix', 'cseed': rnd.randrange(1 << 30)} for _ in range(40 if tier == 'quick' else 900)]
+    # all delayed edges of the model share one (delay, spread) pair - the usual way delays are specified
+    cases += [{'family': 'uniform_kernel', 'cseed': rnd.randrange(1 << 30)} for _ in range(40 if tier == 'quick' else 900)]
     return cases
 
 
 def warmup(ctx):
     import pyrates  # noqa
     import scipy.integrate  # noqa
+    import mpmath
+    mpmath.mp.dps = 40
+    ctx['mp'] = mpmath
     ctx['open_risks'] = open_risks(PID)
     ctx['excluded'] = open_risks('C04') | open_risks('C01')
     monitors.install()
@@ -64,7 +71,18 @@ def make_case(case, ctx):
             pfrac = rnd.choice([0.3, 0.6, 1.0])
             nd = 0
             mixed = case.get('family') == 'mixed_kinds' or want == 'bundle_mixes_discrete_and_gamma'
+            uniform = case.get('family') == 'uniform_kernel'
+            if uniform:
+                n = rnd.choice([1, 2, 2, 3, 4])
+                d = rnd.uniform(max(2.0, 1.4 * n), max(9.0, 1.4 * n + 4.0)) * dt
+                delta = rnd.uniform(0.02, 0.3) if n == 1 else rnd.uniform(-0.3, 0.3)
+                common = (round(d, 7), round(round(d, 7) / math.sqrt(n + delta), 9))
             for e in edges:
+                if uniform:
+                    if rnd.random() < pfrac or pfrac == 1.0:
+                        e[3]['delay'], e[3]['spread'] = common
+                        nd += 1
+                    continue
                 if mixed and rnd.random() < 0.45:
                     # a discrete delay (no spread) next to gamma-kernel edges
                     if rnd.random() < pfrac:
@@ -120,7 +138,36 @@ def mixed_risks(spec):
     return {'bundle_mixes_discrete_and_gamma'} if any(len(v) > 1 for v in kinds.values()) else set()
 
 
+def run_matrix_case(case, ctx):
+    """PopulationTemplate/Connectivity circuit whose connections carry gamma-kernel delays: population outputs against the
+    explicit chain model of the equivalent node-and-edge network (vp/props/c16.py does the comparison)."""
+    from vp.props import c16
+    if case.get('spec') is not None:
+        return c16.run_case(case, ctx)
+    rnd = random.Random(case['cseed'])
+    opened16 = open_risks('C16')
+    for attempt in range(400):
+        plan_, risk = c16.gen_pop_case(rnd, 'conn_delay', opened16)
+        kc = [c for c in plan_['conns'] if c.get('spread')]
+        if kc and not any(c['kind'] == 'coupling' for c in plan_['conns']) and all(c.get('spread') for c in plan_['conns'] if c.get('delay')):
+            break
+    else:
+        raise RuntimeError('generator could not satisfy the constraints')
+    res = c16.run_case({'cseed': case['cseed'], 'spec': plan_, 'case_risk': []}, ctx)
+    res['risk'] = []
+    res['case_extra'] = {'case_risk': []}
+    m = res.setdefault('mech', {})
+    m['matrix_kernel_connections'] = len(kc)
+    m['kernel_edges'] = m.get('kernel_edges', 0) + len(kc)
+    if any(int(round((c['delay'] / c['spread']) ** 2)) != int((c['delay'] / c['spread']) ** 2) for c in kc):
+        m['matrix_kernel_order_rounds_up'] = 1
+    res['features'] = list(res.get('features', [])) + ['matrix_kernel']
+    return res
+
+
 def run_case(case, ctx):
+    if case.get('family') == 'matrix':
+        return run_matrix_case(case, ctx)
     spec, feats, risk, solver, vec = make_case(case, ctx)
     mech = {}
     res = {'features': feats + ['vec' if vec else 'novec', solver], 'risk': risk, 'sig': stable_hash([spec, vec, solver]),
@@ -129,6 +176,8 @@ def run_case(case, ctx):
         ref = RefModel(spec)
         ke = [e for e in ref.edges if e.get('chain_keys') is not None]
         res['nontrivial'] = bool(ke)
+        if case.get('family') == 'uniform_kernel':
+            mech['uniform_kernel_models'] = 1
         mech['kernel_edges'] = len(ke)
         if any(e['chain_n'] >= 2 for e in ke):
             mech['orders_seen_2plus'] = 1
